@@ -28,6 +28,9 @@ pub enum Case {
   /// reproducibility: hashes of these trees are recomputed in a freshly spawned process,
   /// on another thread, and after an observer history
   Repro { specs: Vec<Spec>, history: Vec<u8> },
+  /// x is a SourceMapSource leaf; y is built from a clone of x's SourceMap object (sharing its
+  /// reference-counted payload) with one setter applied (c14::SETTERS), both wrapped the same way
+  Shared { x: Spec, setter: u8, wrap: u8 },
 }
 
 fn cfg() -> GenCfg {
@@ -94,21 +97,33 @@ fn strategy_pairs() -> BoxedStrategy<Case> {
   .boxed()
 }
 
+fn strategy_shared() -> BoxedStrategy<Case> {
+  let cfg = cfg();
+  (crate::gen::text(true, 8), crate::gen::abs_map(cfg), 0u8..crate::props::c14::SETTERS.len() as u8, 0u8..4u8)
+    .prop_map(move |(text, am, setter, wrap)| {
+      let map = crate::gen::concretize_map(&text, &am, true);
+      Case::Shared { x: Spec::Sms { text, name: "g.js".into(), map }, setter, wrap }
+    })
+    .boxed()
+}
+
 fn strategy_repro() -> BoxedStrategy<Case> {
   (vec(tree(cfg()), 40..=40), vec(0u8..OBS.len() as u8, 0..=4))
     .prop_map(|(specs, history)| Case::Repro { specs: specs.into_iter().map(|s| normalize(s, cfg())).collect(), history })
     .boxed()
 }
 
+/// the maps are compared through their JSON text, not through `SourceMap ==` (which is one of the things under test)
 #[derive(PartialEq)]
 struct Obs4 {
   source: String,
   buffer: Vec<u8>,
-  maps: [Option<rspack_sources::SourceMap>; 2],
+  maps: [Option<String>; 2],
 }
 
 fn obs4(s: &dyn Source) -> Obs4 {
-  Obs4 { source: s.source().to_string(), buffer: s.buffer().to_vec(), maps: [s.map(&opts(true, false)), s.map(&opts(false, false))] }
+  let j = |m: Option<rspack_sources::SourceMap>| m.map(|m| m.to_json().unwrap_or_else(|e| format!("<to_json failed: {e}>")));
+  Obs4 { source: s.source().to_string(), buffer: s.buffer().to_vec(), maps: [j(s.map(&opts(true, false))), j(s.map(&opts(false, false)))] }
 }
 
 /// a second, unrelated hasher, used to tell a 64-bit collision from a forgotten ingredient
@@ -185,7 +200,8 @@ impl Prop for C20 {
     "pairs: an ASCII tree and the same tree with one edit from edit::all_edits (leaf text/bytes, Original file name, \
      replacement start/end/content/name/enforce/add/remove, child add/remove/reorder, every field of an attached map \
      or inner map incl. file, sourceRoot, debugId; the SourceMapSource name is excluded), at every depth, or two \
-     independent trees; a pair is KEPT only if source(), buffer(), map(columns) or map(lines) differ, and then must \
+     independent trees; or (third leg) two SourceMapSources whose maps share their payload (clone + one setter), bare or wrapped; \
+     a pair is KEPT only if source(), buffer(), map(columns) or map(lines) (as JSON text) differ, and then must \
      compare unequal and hash differently (a second hasher rules out a 64-bit collision). Reproducibility: batches of \
      40 trees are hashed in a freshly spawned process, on another thread and after an observer history. Non-trivial: a \
      kept pair whose edit is at depth>=2, or a reproducibility batch; distinct by hash of the case JSON".into()
@@ -194,6 +210,7 @@ impl Prop for C20 {
     vec![
       Leg { name: "one-edit and independent pairs", source: Cases::Generated(Box::new(strategy_pairs), 500_000, 6_000_000) },
       Leg { name: "cross-process reproducibility (40 trees per case)", source: Cases::Generated(Box::new(strategy_repro), 32, 320) },
+      Leg { name: "SourceMapSource pairs whose maps share their payload (clone + setter)", source: Cases::Generated(Box::new(strategy_shared), 30_000, 400_000) },
     ]
   }
   fn check(&self, case: &Case) -> CheckResult {
@@ -239,6 +256,20 @@ impl Prop for C20 {
           pair(x, &ed.result, ed.kind, ed.depth)
         }
         Case::Independent { x, y } => pair(x, y, "independent trees", 0),
+        Case::Shared { x, setter, wrap } => {
+          let (a, b, _) = crate::props::c14::shared_pair_of(x, *setter, *wrap).ok_or("harness: Shared case needs an Sms leaf")?;
+          let kind = crate::props::c14::SETTERS[*setter as usize];
+          if obs4(&*a) == obs4(&*b) {
+            return Ok(CaseInfo::default().class(true, "pair dropped: no observable difference"));
+          }
+          if *a == *b {
+            return Err(format!("two sources whose maps share their payload differ observably (setter {kind}, wrapper {wrap}) but compare equal"));
+          }
+          if hash_of(&*a) == hash_of(&*b) {
+            return Err(format!("two sources whose maps share their payload differ observably (setter {kind}, wrapper {wrap}) but hash identically"));
+          }
+          Ok(CaseInfo::nt(true).class(true, "kept pair").class(true, "maps sharing their payload"))
+        }
       }
     });
     match r {
